@@ -289,6 +289,13 @@ pub mod sup {
     pub fn clone_m(v: &Bump) -> Bump {
         Bump(v.0 ^ 0x80)
     }
+    /// a custom method whose *path* ends like the trait method's (`DeepClone::clone`): it is still the user's function
+    pub struct DeepClone;
+    impl DeepClone {
+        pub fn clone(v: &Bump) -> Bump {
+            Bump(v.0 ^ 0x80)
+        }
+    }
     pub fn clone_mu(v: &Unlawful) -> Unlawful {
         Unlawful(v.0 ^ 0x80)
     }
